@@ -158,7 +158,8 @@ def _rand_index(rng, shape, flat, safe=False):
     if flat or len(shape) == 1:
         n = int(np.prod(shape))
         s = _rand_axis_index(rng, n)
-        if flat and len(shape) > 1 and s['t'] == 'slice' and s['v'] == [None, None, None]:
+        if flat and len(shape) > 1 and s['t'] == 'slice' and s['v'][0] is None and s['v'][1] is None \
+                and s['v'][2] in (None, 1):
             # a full flat slice of a multi-dimensional source is treated as "no indices" by
             # OpenMDAO and then rejected for the shape mismatch; not generated
             s = {'t': 'slice', 'v': [0, n, 1]} if n > 1 else {'t': 'int', 'v': 0}
